@@ -191,6 +191,7 @@ type qSrc struct {
 	joins    int
 	tables   int
 	topCross bool // the outermost join is a CROSS JOIN written without parentheses
+	card     int  // upper bound of the number of rows (product over the joined sources): bounds the model's work
 }
 
 func shiftCols(cols []string) []qCol {
@@ -204,6 +205,7 @@ func shiftCols(cols []string) []qCol {
 // a common table expression of the current query: referenced like a table in SQL, expanded to its
 // defining query (SrcSub) in the model
 type qCTE struct {
+	card int // upper bound of its row count
 	name string
 	def  string // "name AS (SELECT ...)"
 	coq  string // (SrcSub ...)
@@ -245,7 +247,7 @@ func (g *qGen) genCTE(w *qWorld) *qCTE {
 		c := g.cond(cols, 1)
 		wh, cwh = " WHERE "+c.sql, "(Some "+c.coq+")"
 	}
-	return &qCTE{name: name,
+	return &qCTE{name: name, card: inner.card,
 		def:  name + " AS (SELECT " + strings.Join(items, ", ") + " FROM " + inner.sql + wh + ")",
 		coq:  fmt.Sprintf("(SrcSub (Q (BSelect %s %s None None %s false) [] None None))", inner.coq, cwh, coqList(citems)),
 		cols: names}
@@ -260,7 +262,7 @@ func (g *qGen) tableSrc(w *qWorld) qSrc {
 		for i, n := range c.cols {
 			cols[i] = a + "." + n
 		}
-		return qSrc{sql: c.name + " AS " + a, coq: c.coq, cols: cols, tables: 1}
+		return qSrc{sql: c.name + " AS " + a, coq: c.coq, cols: cols, tables: 1, card: c.card}
 	}
 	t := w.tables[g.r.Intn(len(w.tables))]
 	w.alias++
@@ -269,7 +271,7 @@ func (g *qGen) tableSrc(w *qWorld) qSrc {
 	for i, c := range t.cols {
 		cols[i] = a + "." + c
 	}
-	return qSrc{sql: t.name + " AS " + a, coq: fmt.Sprintf("(SrcTable %d %s)", len(t.cols), t.coq), cols: cols, tables: 1}
+	return qSrc{sql: t.name + " AS " + a, coq: fmt.Sprintf("(SrcTable %d %s)", len(t.cols), t.coq), cols: cols, tables: 1, card: len(t.rows) + 1}
 }
 
 func (g *qGen) subSrc(w *qWorld) qSrc {
@@ -297,7 +299,7 @@ func (g *qGen) subSrc(w *qWorld) qSrc {
 	}
 	sql := "(SELECT " + strings.Join(items, ", ") + " FROM " + inner.sql + wh + ") AS " + a
 	coq := fmt.Sprintf("(SrcSub (Q (BSelect %s %s None None %s false) [] None None))", inner.coq, cwh, coqList(citems))
-	return qSrc{sql: sql, coq: coq, cols: names, tables: 1}
+	return qSrc{sql: sql, coq: coq, cols: names, tables: 1, card: inner.card}
 }
 
 // A JOIN B USING (..) and A NATURAL JOIN B over two sources that share column names.  The model has no
@@ -366,7 +368,7 @@ func (g *qGen) usingSrc(w *qWorld) (qSrc, bool) {
 		sql = l.sql + " " + k[0] + " " + r.sql + " USING (" + strings.Join(names, ", ") + ")"
 	}
 	coq := fmt.Sprintf("(SrcSub (Q (BSelect (SrcJoin %s %s %s (Some %s)) None None None %s false) [] None None))", k[1], l.coq, r.coq, cond, coqList(items))
-	return qSrc{sql: sql, coq: coq, cols: cols, joins: 1, tables: 2}, true
+	return qSrc{sql: sql, coq: coq, cols: cols, joins: 1, tables: 2, card: l.card*r.card + l.card + r.card}, true
 }
 
 var qJoinKinds = [][3]string{{"CROSS JOIN", "JCross", ""}, {"INNER JOIN", "JInner", "on"}, {"JOIN", "JInner", "on"}, {"LEFT JOIN", "JLeft", "on"},
@@ -385,7 +387,7 @@ func (g *qGen) source(w *qWorld, depth int) qSrc {
 	r := g.source(w, g.r.Intn(depth))
 	jk := qJoinKinds[g.r.Intn(len(qJoinKinds))]
 	cols := append(append([]string{}, l.cols...), r.cols...)
-	s := qSrc{cols: cols, joins: l.joins + r.joins + 1, tables: l.tables + r.tables}
+	s := qSrc{cols: cols, joins: l.joins + r.joins + 1, tables: l.tables + r.tables, card: l.card*r.card + l.card + r.card}
 	rsql := r.sql
 	if r.joins > 0 {
 		rsql = "(" + r.sql + ")"
